@@ -22,6 +22,11 @@ static inline std::string pat_str(const std::vector<Slot>& p) {
 static inline Bn value_of_code(const std::string& c) {
     const Bn& r = K().r;
     if (c.size() > 2 && c.compare(c.size() - 2, 2, "+r") == 0 && c != "2r+r") return Bn::mod(Bn::add(value_of_code(c.substr(0, c.size() - 2)), r), K().two256);
+    if (c.compare(0, 3, "xd:") == 0) {   // digits d3:d2:d1:d0 of the base-|x| expansion (each a number, m1/m2 = |x|-1/-2, x = |x|, xp1 = |x|+1: a top digit may exceed the base)
+        Bn v(0); size_t pos = 3; for (int i = 0; i < 4; i++) { size_t e = c.find(':', pos); std::string t = c.substr(pos, e == std::string::npos ? std::string::npos : e - pos); pos = e == std::string::npos ? c.size() : e + 1;
+            Bn d = t == "m1" ? Bn::sub(K().absx, Bn(1)) : t == "m2" ? Bn::sub(K().absx, Bn(2)) : t == "x" ? K().absx : t == "xp1" ? Bn::add(K().absx, Bn(1)) : Bn((uint64_t) strtoull(t.c_str(), nullptr, 10));
+            v = Bn::add(Bn::mul(v, K().absx), d); }
+        return Bn::mod(v, K().two256); }
     if (c.compare(0, 4, "glv:") == 0) { int d0 = 1, d1 = 1, t = 0, sg = 0; unsigned long long es = 0; sscanf(c.c_str() + 4, "%d:%d:%d:%d:%llu", &d0, &d1, &t, &sg, &es); return glv_scalar(d0, d1, t, sg, es); }
     if (c == "0") return Bn(0); if (c == "1") return Bn(1); if (c == "2") return Bn(2); if (c == "3") return Bn(3);
     if (c == "r-1") return Bn::sub(r, Bn(1)); if (c == "r") return r; if (c == "r+1") return Bn::add(r, Bn(1));
